@@ -126,6 +126,9 @@ func runC19(e *core.Env) {
 	}
 	writes := []string{
 		`tag.delete("reg.test/proj/app:v2")`,
+		`tag.delete("reg.test/proj/app@` + img.Root.Digest + `")`,
+		`local r = reference.new("reg.test/proj/app:v1"); r:digest("` + img.Root.Digest + `"); tag.delete(r)`,
+		`tag.delete("ocidir://$LAYOUT@` + img2.Digest + `")`,
 		`local mh = manifest.head("reg.test/proj/app:dev"); mh:delete()`,
 		`local m = manifest.get("reg.test/proj/lib:v1"); manifest.put(m, "tgt.test/put/app:t1")`,
 		`local m = manifest.get("reg.test/proj/lib:v1"); m:put("reg.test/proj/app:newtag")`,
@@ -145,6 +148,7 @@ func runC19(e *core.Env) {
 	}
 	var scripts []string
 	var usedWrites []string
+	timeoutScript := -1
 	for i := 0; i < nscripts; i++ {
 		var sb strings.Builder
 		fmt.Fprintf(&sb, "local function sig(s) pcall(function() manifest.head(\"reg.test/signal/r:p%d-\" .. s) end) end\n", i)
@@ -154,12 +158,16 @@ func runC19(e *core.Env) {
 		}
 		sb.WriteString("sig(\"w-begin\")\n")
 		if i == failing {
-			switch e.Choose("gen", 4, "early") {
+			switch e.Choose("gen", 5, "early") {
 			case 1:
 				sb.WriteString("error(\"script fails on purpose\")\n")
 			case 2:
 				// fails inside a read function, not protected
 				sb.WriteString(failingReads[e.Choose("gen", len(failingReads), "failread")] + "\n")
+			case 3:
+				// runs into its own timeout: enough requests to use up the two (simulated) seconds it is given
+				timeoutScript = i
+				sb.WriteString("for i = 1, 3000 do manifest.head(\"reg.test/proj/lib:v1\") end\n")
 			}
 		}
 		for k, n := 0, 1+e.Choose("gen", 4, "nwrites"); k < n; k++ {
@@ -177,7 +185,7 @@ func runC19(e *core.Env) {
 		sb.WriteString("sig(\"end\")\n")
 		scripts = append(scripts, sb.String())
 	}
-	sample := map[string]any{"scripts": scripts, "parallel": parallel, "failing_script": failing}
+	sample := map[string]any{"scripts": scripts, "parallel": parallel, "failing_script": failing, "script_with_2s_timeout": timeoutScript}
 	e.SetCase(fmt.Sprintf("%v|%d|%d|%s", scripts, parallel, failing, img.Root.Digest), true, sample)
 
 	var only []int // nil: all scripts
@@ -193,7 +201,11 @@ func runC19(e *core.Env) {
 				continue
 			}
 			s = strings.NewReplacer("$LAYOUT", w.layout, "$TAR", w.tarOK, "$OUT", w.outDir).Replace(s)
-			fmt.Fprintf(&cfg, "  - name: script-%d\n    script: |\n", i)
+			fmt.Fprintf(&cfg, "  - name: script-%d\n", i)
+			if i == timeoutScript {
+				cfg.WriteString("    timeout: 2s\n")
+			}
+			cfg.WriteString("    script: |\n")
 			for _, l := range strings.Split(strings.TrimRight(s, "\n"), "\n") {
 				cfg.WriteString("      " + l + "\n")
 			}
@@ -329,6 +341,9 @@ func runC19(e *core.Env) {
 			}
 			e.Probe("script-compared-with-solo-run")
 		}
+	}
+	if timeoutScript >= 0 {
+		e.Probe("with-script-running-into-its-timeout")
 	}
 	if failing >= 0 {
 		e.Probe("with-failing-script")
